@@ -245,4 +245,41 @@ Section PoolProofs.
         apply IH. intros c Hin. apply H. right. exact Hin. }
       rewrite (Hz _ Hid) in Hc. discriminate.
   Qed.
+
+  (* ---------- packaged: pools started from the initial globals ---------- *)
+  Variable g0 : G.
+  Variable idle : PC.
+  Hypothesis g0_ok : gok g0 = true.
+  Hypothesis g0_lk : lkof g0 = LFree.
+  Hypothesis g0_act : actb g0 = false.
+  Hypothesis idle_lok : lok g0 false idle = true.
+  Hypothesis idle_act : act idle = false.
+
+  Definition pool (ops : list (list OP)) : st :=
+    {| g := g0; owner := 0; callers := map (fun l => {| pc := idle; todo := l |}) ops |}.
+
+  Lemma pool_inv ops : Inv (pool ops).
+  Proof.
+    split; cbn [g owner callers pool].
+    - exact g0_ok.
+    - rewrite g0_lk. discriminate.
+    - intros i c Hi. unfold Pool.isme; cbn [g pool]. rewrite g0_lk.
+      apply nth_error_In in Hi. apply in_map_iff in Hi. destruct Hi as (l & <- & _). exact idle_lok.
+    - rewrite g0_act. cbn. induction ops as [|l r IH]; cbn; auto.
+      unfold cact at 1; cbn [pc]. rewrite idle_act. cbn. exact IH.
+  Qed.
+
+  Theorem pool_concurrent ops sch :
+    let s := run (pool ops) sch in
+    Inv s /\
+    (all_done s = false -> exists ch, step s ch <> None) /\
+    (all_done s = true -> quiet (g s) = true).
+  Proof.
+    intros s. assert (Hi : Inv s) by (apply inv_run; apply pool_inv).
+    split; [exact Hi|]. split.
+    - apply no_deadlock. exact Hi.
+    - intros Hd. apply idle_quiet; auto. intros c Hc. unfold Pool.all_done in Hd.
+      rewrite forallb_forall in Hd. specialize (Hd c Hc). unfold Pool.done_caller in Hd.
+      apply andb_prop in Hd. tauto.
+  Qed.
 End PoolProofs.
